@@ -205,7 +205,7 @@ PROPS = {
         "theorems": ["Goat.C08.verifyDequeue_exact", "Goat.C08.processProposal_exact", "Goat.C08.accepted_wellformed", "Goat.C08.honest_accepted",
                      "Goat.C08.due_cap", "Goat.C08.no_conflicting_access",
                      "Goat.C08P.walk_spec", "Goat.C08P.select_le", "Goat.C08P.select_length", "Goat.C08P.prepared_size", "Goat.C08P.prepared_accepted",
-                     "Goat.C08P.full_proposal_has_16", "Goat.C08P.walkV_ok_sel", "Goat.C08P.walkV_ok_length", "Goat.C08P.walkV_ok_of_no_removeErr"],
+                     "Goat.C08P.full_proposal_has_16", "Goat.C08P.walkV_ok_sel", "Goat.C08P.walkV_ok_length", "Goat.C08P.walkV_ok_of_no_removeErr", "Goat.C08P.walkV_ok_sound"],
         "race": {"stream": "app-proposal", "quick": 250, "thorough": 2500, "seeds": 4},
         "streams": [{"name": "app-proposal", "quick": 900, "thorough": 6000, "seeds": 12},
                     {"name": "app-proposal-shared", "quick": 400, "thorough": 2500, "seeds": 6}],
